@@ -14,7 +14,7 @@ EXTENDS Envelope, TLC
 
 CONSTANTS Names, Types, Seqs, Expect, PeekReadFull, Mutate
 
-NamesQ == { <<97>>, <<97, 58, 98>>, <<255, 254>>, <<>> }
+NamesQ == { <<97>>, <<97, 58, 98>>, <<255, 254>>, <<>>, <<97, 58>>, <<58, 98>>, <<97, 58, 98, 58, 99>>, <<98, 58, 120>> }
 NamesT == NamesQ \cup { [i \in 1..40 |-> 64 + i] }
 SeqsQ  == { MinI32, -1, 0, MaxI32 }
 
